@@ -221,6 +221,10 @@ structure Defects where
   /-- #4 `RoomNode::read` replayed the history lists newest first (`sort_by(|a, b| b.cdate.cmp(&a.cdate))`):
       a stored room with two entries for one key could not be parsed back (room_node.rs:129,315,328,341) -/
   newestFirstRead : Bool
+  /-- `check_consistency` lets a list carry several rows with one id; the merge compares only the first
+      one with the stored entry and never judges a row whose id is stored as a new entry
+      (room_node.rs:37-90, 540-587, 798-848) -/
+  duplicateIdsUnchecked : Bool
 deriving Repr, DecidableEq
 
 /-- /repo as it is now. Fixed since the first run of this check (regression witnesses are kept about
@@ -228,15 +232,15 @@ deriving Repr, DecidableEq
     `newestFirstRead` (/repo f7a29ff). -/
 def Defects.asImplemented : Defects :=
   { placingEdgeUnchecked := true, roomRowUnchecked := false, newGroupUserAdminUnchecked := false,
-    newestFirstRead := false }
+    newestFirstRead := false, duplicateIdsUnchecked := true }
 
 /-- /repo before any of the fixes that this check led to -/
 def Defects.beforeFixes : Defects :=
   { placingEdgeUnchecked := true, roomRowUnchecked := true, newGroupUserAdminUnchecked := true,
-    newestFirstRead := true }
+    newestFirstRead := true, duplicateIdsUnchecked := true }
 def Defects.none : Defects :=
   { placingEdgeUnchecked := false, roomRowUnchecked := false, newGroupUserAdminUnchecked := false,
-    newestFirstRead := false }
+    newestFirstRead := false, duplicateIdsUnchecked := false }
 
 /-- `Edge::eq`: every field but the signature -/
 def edgeEq (a b : PEdge) : Bool :=
@@ -548,6 +552,17 @@ def installRoom (s : RStore) (room : RoomT) : RStore :=
   if s.rooms.any (·.id = room.id) then { s with rooms := s.rooms.map fun r => if r.id = room.id then room else r }
   else { s with rooms := s.rooms ++ [room] }
 
+def distinctNats : List Nat → Bool
+  | [] => true
+  | x :: xs => !xs.contains x && distinctNats xs
+
+/-- no list of the candidate carries two rows with one id (the intended check) -/
+def RoomNode.idsDistinct (r : RoomNode) : Bool :=
+  distinctNats (r.adminNodes.map (·.id)) && distinctNats (r.authNodes.map (·.node.id)) &&
+  r.authNodes.all fun a =>
+    distinctNats (a.rightNodes.map (·.id)) && distinctNats (a.userNodes.map (·.id)) &&
+    distinctNats (a.userAdminNodes.map (·.id))
+
 inductive Verdict where
   | ok (s : RStore)
   | err (e : RErr)
@@ -560,6 +575,7 @@ def accept (d : Defects) (s : RStore) (cand : RoomNode) : Verdict :=
   if !cand.sigsOk then .err .signature
   else if !cand.consistent then .err .inconsistent
   else if !d.placingEdgeUnchecked && !cand.placingOk then .err .inconsistent
+  else if !d.duplicateIdsUnchecked && !cand.idsDistinct then .err .inconsistent
   else
     match s.rooms.find? (·.id = cand.node.id) with
     | some room =>
